@@ -156,7 +156,10 @@ def canon_real(issues):
     nameless = []
     for i in issues:
         if not i.get("ec_filename"):
-            family = "definition/" in str(getattr(i.get("ec_HedString"), "_hed_string", i.get("ec_HedString"))).casefold()
+            # the family of the observation: issues of definition extraction (all published as DEFINITION_INVALID) on an
+            # entry that holds a Definition tag - with or without a name ("(Definition)" has no slash)
+            family = str(i.get("code")) == "DEFINITION_INVALID" and \
+                "definition" in str(getattr(i.get("ec_HedString"), "_hed_string", i.get("ec_HedString"))).casefold()
             nameless.append((c08.strip_kind([c08.canon_issue(i)])[0], family,
                              {k: str(v)[:80] for k, v in i.items() if k not in ("message", "_kw", "source_tag")}))
             continue
